@@ -175,9 +175,15 @@ class C11(Prop):
             if alike and now % 4 != 3:
                 z2 = alike[now % len(alike)]      # a zone easily mistaken for this one: same offset right now, or same abbreviations
                 acc.count("zone_switches_to_a_confusable_zone")
+            epochs = FIXED_EPOCHS
+            if zone in clock.TWINS and now % 3 != 1:
+                # ... or its twin: identical abbreviations and offsets today, another history (instants at which the two disagreed)
+                z2, old_instants = clock.TWINS[zone]
+                epochs = old_instants + FIXED_EPOCHS[:40]
+                acc.count("zone_switches_to_a_twin_zone")
             for zz in (zone, z2, zone):
                 clock.set_zone(zz)
-                for e in FIXED_EPOCHS:
+                for e in epochs:
                     h = e.to_bytes(4, "little").hex()
                     acc.ev()
                     try:
@@ -276,7 +282,8 @@ class C11(Prop):
         loc_ = clock.local(zone, now)
         nxt = clock.epochs_of(zone, (loc_ + timedelta(days=1)).date(), 0, 0) or clock.epochs_of(zone, (loc_ + timedelta(days=1)).date(), 1, 0)
         if nxt:
-            for after in (600, 1500, 3300, 4500):
+            # (negative: the last second of the day, at fractions of a second the clock really shows - 'today' is still the old day)
+            for after in (600, 1500, 3300, 4500, -0.25, -0.5, -0.9, -59.4):
                 t_ = nxt[0] + after
                 day_ = clock.local(zone, t_).date()
                 with clock.virtual_time(t_):
@@ -291,7 +298,7 @@ class C11(Prop):
                             acc.violation("encode-raised", f"{s_} in {zone} shortly after the next local midnight raised {type(exc).__name__}: {exc}", {"zone": zone})
                             continue
                         if g_ not in want_:
-                            acc.violation("encode-wrong-epoch:after-midnight", f"{zone}: {after // 60} min after the local midnight that follows {loc_.date()}, {s_} is encoded as {g_} "
+                            acc.violation("encode-wrong-epoch:after-midnight", f"{zone}: {after / 60:.3f} min after the local midnight that follows {loc_.date()}, {s_} is encoded as {g_} "
                                           f"({clock.local(zone, g_)}), want one of {want_} (today is {day_})", {"zone": zone, "time": s_, "after_s": after})
             acc.count("cases_followed_into_the_next_local_day")
         if now % 3 == 0:
